@@ -70,6 +70,14 @@ TEXT = {
         "note": COMMON_NOTE + " The timer that decides when a pass runs is not modelled.",
         "technique": "Lean 4 proof (mutual structural induction over rule trees); differential correspondence incl. hook-driven interleavings",
     },
+    "C17": {
+        "level": "The Model has no engine parameter; every generated program (incl. scans whose Send fails part-way, limits, drops, clears, re-created tables) runs on all three "
+                 "engines and each is compared with that one Model, so the engines agree by transitivity. Theorems cover the caller side of the Rows interface: the ReadRows "
+                 "callback loop yields the same rows whether or not the iteration honours the callback's stop request, and equals the declarative scan (first N emitting rows); "
+                 "likewise DropRowRange's collect-until-first-mismatch. A structural fact checks that no Rows implementation discards the iterator's result.",
+        "note": COMMON_NOTE,
+        "technique": "Lean 4 proof (loop equivalence by induction); 3-engine differential correspondence; go/types structural fact",
+    },
     "C02": {
         "level": "Theorems: the chunking law of resumable uploads (for every payload and every request sequence carrying parts of it the buffer stays a prefix "
                  "and every completion hands over exactly the payload — induction over the request list), upload-then-read round trip, rejected MD5 mismatch, "
